@@ -23,6 +23,10 @@ def run(ctx):
     from . import sessions
     from . import c13 as _c13
     sessions.model_check(ctx)
+    # ... the log listing too (version-3 dumps with log records that extend the tables as they are passed)
+    sessions.run_sessions(ctx, random.Random(ctx.seed * 2 + 55), 150 if ctx.quick else 2500, sessions.KINDS_LOGS,
+                          lambda r, world=None: _c13.gen_dump(r, world=world, logs=True, allow_zero_tid=False),
+                          _c13.gen_cfg if ctx.seed % 2 else sessions.cfg_light, 'seslog_')
     for i_ in range(2):
         sessions.run_sessions(ctx, random.Random(ctx.seed * 2 + 77 + i_), 120 if ctx.quick else 2500, ('kev', 'fkev', 'kev', 'tr'),
                               lambda r, world=None: _c13.gen_dump(r, world=world, orphans=0.0, samples=0.0),
